@@ -258,6 +258,14 @@ def execute_run_isolated(scn, config, tape_values=None, run_seed=None, keep_even
         try:
             os.close(r)
             try:
+                # a runaway allocation in the code under test must surface as MemoryError inside the run
+                # (and be judged by the oracles), not as the kernel killing this child
+                try:
+                    import resource
+                    lim = int(os.environ.get("VERIF_CHILD_AS_LIMIT_GB", "16")) * (1 << 30)
+                    resource.setrlimit(resource.RLIMIT_AS, (lim, lim))
+                except Exception:
+                    pass
                 if hasattr(scn, "child_init"):
                     scn.child_init(config)
                 res = ("ok", execute_run(scn, config, tape_values=tape_values, run_seed=run_seed, keep_events=keep_events))
